@@ -1517,10 +1517,17 @@ package gomatrixserverlib
 // ---------------------------------------------------------------- C04: untrusted event parsers
 
 // CanonicalJSONAssumeValid and checkEventContentHash are functions of the document (bodies: C01 / C03).
+// canonAV(d) names what CanonicalJSONAssumeValid returns for d; it may only be applied to lexically well-formed JSON
+// (CompactJSON indexes past '-' and backslash without a bounds check), which every caller establishes first
 //@ func CanonicalJSONAssumeValid
-//@   trusted
-//@   ensures canonical: str(result) == canonAV(str(input))
+//@   property C01, C18:safety
+//@   requires lexOK(str(input))
+//@   defines canonical: str(result) == canonAV(str(input))
 //@   assigns nothing
+
+//@ func SortJSON
+//@   trusted
+//@   assigns output[*]
 
 //@ func checkEventContentHash
 //@   trusted
@@ -2107,5 +2114,6 @@ package gomatrixserverlib
 //@ func CompactJSON
 //@   property C01, C18:safety
 //@   requires lexOK(str(input)) && ref(input) != ref(output)
+//@   assigns output[*]
 //@   loop 1: invariant 0 <= i && i <= len(input) && !lxStr(old(str(input)), i) && !lxEsc(old(str(input)), i) && str(input) == old(str(input)) && ref(output) != ref(input)
 //@   loop 2: invariant 0 <= i && i <= len(input) && lxStr(old(str(input)), i) && !lxEsc(old(str(input)), i) && str(input) == old(str(input)) && ref(output) != ref(input)
